@@ -42,7 +42,7 @@ PLANS = {
             ("runsim", "plain", "process", 8000, 150000, ("C11",))],      # TeamCity output over forked children: a test the parent closes too early shows up as a child event the parent never recorded
 }
 # properties whose statement contains a memory-safety / no-crash / no-hang clause: a crash class is attributed to them
-CRASH_CLAUSE = {"C01", "C05", "C10", "C11", "C14", "C17", "C18"}
+CRASH_CLAUSE = {"C01", "C05", "C10", "C11", "C14", "C15", "C17", "C18"}      # C15: "they return NULL" / "every other allocation succeeds" - a crash on a designated or failing allocation is neither
 
 COMPONENTS = {
     "runsim": {
